@@ -8,6 +8,7 @@ package main
 
 import (
 	"bufio"
+	"bytes"
 	"context"
 	"crypto/sha256"
 	"encoding/hex"
@@ -322,7 +323,14 @@ func c55Name(i int, kind string, isTarget bool) string {
 	return fmt.Sprintf("%s%d", kind[:1], i)
 }
 
+// c55ConstSize is the size of the constant-content flavour of the large file: the chunker finds no boundary in
+// constant data, so the first chunk has the maximal size (8 MiB) and takes long to hash / compress / encrypt.
+const c55ConstSize = 8*1024*1024 + 300000
+
 func c55FileBytes(i, size int, gen int) []byte {
+	if size == c55ConstSize {
+		return bytes.Repeat([]byte{0x55}, size)
+	}
 	b := make([]byte, size)
 	r := rand.New(rand.NewSource(int64(i*7919 + size + gen*104729)))
 	_, _ = r.Read(b)
@@ -330,7 +338,9 @@ func c55FileBytes(i, size int, gen int) []byte {
 }
 
 // c55Materialise creates the tree of script s below base. Items whose fault is target_missing are not created.
-func c55Materialise(t testing.TB, base string, s *c55Script, bigItem int) *c55Tree {
+// variant chooses the content of the large file: even = random content (seeded by variant: other chunk boundaries),
+// odd = constant content.
+func c55Materialise(t testing.TB, base string, s *c55Script, bigItem int, variant int) *c55Tree {
 	n := len(s.Kind)
 	tr := &c55Tree{base: base, rel: make([]string, n+1), sizes: make([]int, n+1)}
 	for i := 1; i <= n; i++ {
@@ -353,10 +363,13 @@ func c55Materialise(t testing.TB, base string, s *c55Script, bigItem int) *c55Tr
 		case "file":
 			size := 150 + 37*i
 			if i == bigItem {
-				size = 1300000 + 4099*i
+				size = 3100000 + 4099*i // several chunks, several 512 KiB read-buffer fills
+				if variant%2 == 1 {
+					size = c55ConstSize
+				}
 			}
 			tr.sizes[i] = size
-			err = os.WriteFile(abs, c55FileBytes(i, size, 0), 0o644)
+			err = os.WriteFile(abs, c55FileBytes(i, size, 2*variant), 0o644)
 		case "symlink":
 			err = os.Symlink("nowhere", abs)
 		}
@@ -461,7 +474,7 @@ func c55SingleKey(s *c55Script) (key string, onTarget bool) {
 	return "", false
 }
 
-// c55BigItem chooses the item that gets a large file (1.3 MB: several chunks, several read-buffer fills), 0 = none:
+// c55BigItem chooses the item that gets a large file (3.1 MB: several chunks, several read-buffer fills), 0 = none:
 // the first faulted file, else the first file.
 func c55BigItem(s *c55Script) int {
 	want := s.big > 0 || (s.big == 0 && s.idx%3 == 0)
@@ -618,8 +631,9 @@ func (c *c55ChildSink) Record(rec map[string]any) { c.emit(c55Event{T: "rec", Re
 func (c *c55ChildSink) Sample(rec map[string]any) { c.emit(c55Event{T: "sample", Rec: rec}) }
 
 type c55PlannedRun struct {
-	s    *c55Script
-	mode string
+	s       *c55Script
+	mode    string
+	variant int // content of the large file (c55Materialise)
 }
 
 // c55Plan lists the runs: every script without parent; additionally on top of a parent snapshot of the unfaulted
@@ -627,13 +641,21 @@ type c55PlannedRun struct {
 func c55Plan(sel []*c55Script, seed int64) []c55PlannedRun {
 	var plan []c55PlannedRun
 	for n, s := range sel {
-		plan = append(plan, c55PlannedRun{s, "noparent"})
+		plan = append(plan, c55PlannedRun{s, "noparent", 0})
+		if b := c55BigItem(s); b > 0 && strings.HasPrefix(s.Fault[b-1], "read_") {
+			// a read error in the middle of a large file meets chunks that are still being saved asynchronously: what
+			// happens depends on where the chunk boundaries are and how long a chunk takes; these runs are repeated
+			// with other contents of the large file (random: other boundaries; constant: one maximal chunk)
+			for r := 1; r < kit.Pick(4, 2); r++ {
+				plan = append(plan, c55PlannedRun{s, "noparent", r})
+			}
+		}
 		switch (n + int(seed)) % kit.Pick(4, 5) {
 		case 0:
-			plan = append(plan, c55PlannedRun{s, "parent"})
+			plan = append(plan, c55PlannedRun{s, "parent", 0})
 		case 1:
 			if !c55HasSwap(s) { // a swap changes the tree for good: the second run would see another tree
-				plan = append(plan, c55PlannedRun{s, "skip"})
+				plan = append(plan, c55PlannedRun{s, "skip", 0})
 			}
 		}
 	}
@@ -660,7 +682,7 @@ func c55Child(t *testing.T, plan []c55PlannedRun) {
 			}
 		}
 		sink.emit(c55Event{T: "begin", N: n})
-		c55RunInproc(t, e, plan[n].s, plan[n].mode, n+1, sink)
+		c55RunInproc(t, e, plan[n].s, plan[n].mode, plan[n].variant, n+1, sink)
 		sink.emit(c55Event{T: "end", N: n})
 	}
 	sink.emit(c55Event{T: "done"})
@@ -762,7 +784,7 @@ func c55RunChildren(t *testing.T, plan []c55PlannedRun, res *kit.Result, sink *c
 		head = strings.ReplaceAll(head, "\n", " ")
 		delivered := c55Predicted(pr.s)
 		k := c55Key(pr.s, delivered)
-		rec := map[string]any{"mode": "inproc-" + pr.mode, "script": pr.s.idx, "group": pr.s.Group, "items": c55Items(pr.s, delivered), "status": 2,
+		rec := map[string]any{"mode": "inproc-" + pr.mode, "script": pr.s.idx, "variant": pr.variant, "group": pr.s.Group, "items": c55Items(pr.s, delivered), "status": 2,
 			"saved": false, "skipped": false, "insnap": []int{}, "extra": 0, "content_ok": true, "err": head,
 			"detail": "the backup command crashed at " + site + " (delivered = planned faults)", "key": k, "panic": true, "site": strings.TrimSuffix(strings.Fields(site + " ?")[0], "?")}
 		sink.Record(rec)
@@ -823,7 +845,7 @@ func c55Faulty(tr *c55Tree, s *c55Script, side string) *c55FS {
 			ffs.eioAt[abs] = tr.sizes[i] / 2
 			ffs.piece[abs] = 64 // a small file arrives in 3..8 Read calls
 			if tr.sizes[i] > 1000000 {
-				ffs.eioAt[abs] = tr.sizes[i] - 70000 // after at least one full chunk was cut and uploaded
+				ffs.eioAt[abs] = tr.sizes[i] - 70000 // after full chunks were cut and handed to the blob saver
 				ffs.piece[abs] = 64 * 1024
 			}
 		}
@@ -831,7 +853,7 @@ func c55Faulty(tr *c55Tree, s *c55Script, side string) *c55FS {
 	return ffs
 }
 
-func c55RunInproc(t testing.TB, e *vEnv, s *c55Script, mode string, run int, res c55Sink) {
+func c55RunInproc(t testing.TB, e *vEnv, s *c55Script, mode string, variant int, run int, res c55Sink) {
 	base, err := os.MkdirTemp(e.base, "src-")
 	if err != nil {
 		t.Fatal(err)
@@ -842,7 +864,7 @@ func c55RunInproc(t testing.TB, e *vEnv, s *c55Script, mode string, run int, res
 		t.Fatal(err)
 	}
 	defer os.RemoveAll(side)
-	tr := c55Materialise(t, base, s, c55BigItem(s))
+	tr := c55Materialise(t, base, s, c55BigItem(s), variant)
 	host := fmt.Sprintf("h%d", run)
 	opts := BackupOptions{Host: host, NoScan: true}
 	hook := func(ffs *c55FS) {
@@ -954,7 +976,7 @@ func c55RunInproc(t testing.TB, e *vEnv, s *c55Script, mode string, run int, res
 			errText = errText[:200]
 		}
 	}
-	rec := map[string]any{"mode": "inproc-" + mode, "script": s.idx, "group": s.Group, "items": c55Items(s, delivered), "status": status,
+	rec := map[string]any{"mode": "inproc-" + mode, "script": s.idx, "variant": variant, "group": s.Group, "items": c55Items(s, delivered), "status": status,
 		"saved": saved, "skipped": skipped, "insnap": insnap, "extra": extra, "content_ok": contentOK, "err": errText, "detail": detail, "key": c55Key(s, delivered)}
 	res.Record(rec)
 	res.Count("runs_inproc_"+mode, 1)
@@ -1123,7 +1145,7 @@ func c55Binary(t *testing.T, all []*c55Script, res *kit.Result, recs *kit.NDJSON
 		if err := os.Mkdir(base, 0o755); err != nil {
 			t.Fatal(err)
 		}
-		tr := c55Materialise(t, base, s, 0)
+		tr := c55Materialise(t, base, s, 0, 0)
 		plan := c55DiskPlan(s, unpriv)
 		if err := c55Chown(base, uid); err != nil {
 			t.Fatal(err)
